@@ -4,7 +4,7 @@ from tools import vlib, t3
 from tools import ks
 
 MODULE = "PropC05"
-THEOREMS = ["C05_code_conforms", "C05_no_deadlock", "C05_terminates", "C05_not_early", "C05_all_done_at_return", "C05_param_feeder_may_lag", "C05_no_leftovers", "C05_nonvacuous", "C05_with_slots_no_deadlock", "C05_with_slots_terminates", "C05_with_slots_all_done", "C05_with_slots_maximal", "C05_with_slots_nonvacuous"]
+THEOREMS = ["C05_code_conforms", "C05_no_deadlock", "C05_terminates", "C05_not_early", "C05_all_done_at_return", "C05_param_feeder_may_lag", "C05_no_leftovers", "C05_nonvacuous", "C05_with_slots_no_deadlock", "C05_with_slots_terminates", "C05_with_slots_all_done", "C05_with_slots_maximal", "C05_with_slots_nonvacuous", "C05_fanin_no_deadlock", "C05_fanin_small_buffer_refuted", "C05_fanin_nonvacuous"]
 
 
 def shapes(rng, i):
@@ -168,6 +168,49 @@ def dangling_stream(args):
     return t3.dangling_stream_case(args[0], args[1], "dangling-stream")
 
 
+def fanin_ports_case(args):
+    """fan-in on every in-port of a process: several upstream processes (their out-ports declared in different orders) each
+    feed all three in-ports of one consumer.  With a large buffer the run completes; with SCIPIPE_BUFSIZE=1 it can deadlock
+    (finding D21, recorded): the case reports which of the two it saw"""
+    seed, i, buf = args
+    rng = random.Random(seed * 7949 + i)
+    sp = t3.Spec(maxtasks=4, bufsize=buf)
+    nup, n_in = rng.randint(2, 3), rng.randint(4, 6)
+    ups = []
+    for u in range(nup):
+        ps = ["u%d_%d.txt" % (u, j) for j in range(n_in)]
+        for p in ps:
+            sp.files[p] = p + "\n"
+        s = sp.src("src%d" % u, ps)
+        order = [("o1", "1"), ("o2", "2"), ("o3", "3")]
+        order = order[u % 3:] + order[:u % 3] if u % 2 == 0 else list(reversed(order))
+        ups.append(sp.proc(t3.Proc("U%d" % u, kind="cattok", ins=[("a", [(s, "out")])], outs=[(o, "{i:a}.U%d_%s" % (u, x)) for o, x in order])))
+    sp.proc(t3.Proc("X", kind="cat", ins=[("p%d" % k, [(u, "o%d" % k) for u in ups]) for k in (1, 2, 3)], outs=[("o", "{i:p1}.X")]))
+    sc = t3.Scratch()
+    try:
+        sc.plant(sp.files)
+        impl = t3.run_impl(sc, sp, timeout=30, yield_seed=(rng.randint(1, 10**6), 20000))
+        problems, known = [], []
+        dead = impl["timed_out"] or "all goroutines are asleep" in (impl["stderr"] + impl["stdout"])
+        if dead and buf <= 2:
+            known.append("fanin-into-several-ports-small-buffer")
+        elif dead:
+            problems.append(("deadlock-or-hang", "fan-in of %d upstreams into the three in-ports of one process deadlocks with SCIPIPE_BUFSIZE=%d" % (nup, buf)))
+        elif impl["rc"] != 0 or not impl["returned"]:
+            problems.append(("unexpected-failure", "exit %s: %s" % (impl["rc"], impl["stderr"][-200:])))
+        else:
+            n = len([k for k in t3.started_keys(impl["trace"]) if k.startswith("X ")])
+            if n != nup * n_in:
+                problems.append(("tasks-differ", "the consumer ran %d tasks for %d input sets" % (n, nup * n_in)))
+            lo = [p for p, k in impl["snap_at_return"].items() if p.split("/")[-1].startswith("_scipipe_tmp") or k == "p"]
+            if lo:
+                problems.append(("leftover-at-return", "temp dir present when Run returns: %s" % lo[:2]))
+        return {"spec": sp.text(), "bufsize": buf, "problems": problems, "known": known, "ntasks": nup * n_in, "nskip": 0, "rc": impl["rc"], "stderr": impl["stderr"][-300:],
+                "yield": None, "wall": impl["wall"]}
+    finally:
+        sc.close()
+
+
 def run(rep, tier, seed):
     proved = vlib.prove(rep, MODULE, THEOREMS)
     ok, msg = vlib.build_ocaml()
@@ -179,10 +222,31 @@ def run(rep, tier, seed):
     results += t3.run_many(component_case, [(seed, i) for i in range(n // 4)])
     results += t3.run_many(dangling_stream, [(seed, i) for i in range(n // 8)])
     results += t3.run_many(ks.ks_case, [(seed, i, ("basic",)) for i in range(n // 6)])
+    fan = t3.run_many(fanin_ports_case, [(seed, i, 128) for i in range(6 if tier == "quick" else 60)])
+    small = t3.run_many(fanin_ports_case, [(seed, i, 1) for i in range(16 if tier == "quick" else 120)])
+    extra = 0
+    while not any(r.get("known") for r in small) and extra < 4:
+        # the deadlock needs a particular map-iteration order (about one run in three): look a little longer, so that the
+        # recorded finding is exhibited in every run of the check
+        extra += 1
+        small += t3.run_many(fanin_ports_case, [(seed, 1000 * extra + i, 1) for i in range(16)])
+    fan += small
+    kf = vlib.known_findings("C05")
+    nd21 = 0
+    for r in fan:
+        if r.get("known"):
+            nd21 += 1
+            if any(f["kind"] == "fanin-into-several-ports-small-buffer" for f in kf):
+                if nd21 == 1:
+                    rep.known_finding("a process whose three in-ports are each fed by the same two or three upstream processes deadlocks with SCIPIPE_BUFSIZE=1 (sequential blocking sends and receives in map-iteration order wait for each other)")
+            else:
+                r["problems"].append(("deadlock-or-hang", "fan-in into the three in-ports of one process deadlocks with SCIPIPE_BUFSIZE=%d" % r["bufsize"]))
+    rep.notes["fanin_small_buffer_deadlocks_seen"] = "%d of %d runs with SCIPIPE_BUFSIZE=1" % (nd21, sum(1 for r in fan if r["bufsize"] == 1))
+    results += fan
     t3.report_t3(rep, MODULE, proved, results, "T3 termination / at-return snapshot")
     rep.cov["evaluations"] = len(results)
     rep.cov["distinct_nontrivial"] = len({r["spec"] for r in results if r["ntasks"] >= 1})
-    rep.cov["rule"] = "workflow shapes (independent leaves with a slow one, a process without out-ports beside a slow leaf, a single port-less process, chains with more tasks than buffer slots, capacity-1 diamonds, out-port-less leaf plus parameter-only process) and random DAGs, SCIPIPE_BUFSIZE in {1,2,3}; streamed producer/consumer pairs run once and then twice more in place; workflows with FileSplitter (line counts that are exact multiples of the limit included), Concatenator and FileCombinator; streaming out-ports that nobody consumes (dangling, or the consumer cut off by RunTo, alone or beside a consumed stream; payloads up to several pipe buffers); a run must terminate (90 s bound), exit 0, and the snapshot the program takes right after Run returns must contain every predicted output and no temp dir / FIFO; every started command has ended; non-trivial = at least one task"
+    rep.cov["rule"] = "workflow shapes (independent leaves with a slow one, a process without out-ports beside a slow leaf, a single port-less process, chains with more tasks than buffer slots, capacity-1 diamonds, out-port-less leaf plus parameter-only process) and random DAGs, SCIPIPE_BUFSIZE in {1,2,3}; streamed producer/consumer pairs run once and then twice more in place; workflows with FileSplitter (line counts that are exact multiples of the limit included), Concatenator and FileCombinator; fan-in of 2-3 upstream processes into each of the three in-ports of one process (SCIPIPE_BUFSIZE 128: completes; 1: the recorded finding D21); streaming out-ports that nobody consumes (dangling, or the consumer cut off by RunTo, alone or beside a consumed stream; payloads up to several pipe buffers); a run must terminate (90 s bound), exit 0, and the snapshot the program takes right after Run returns must contain every predicted output and no temp dir / FIFO; every started command has ended; non-trivial = at least one task"
     rep.cov["rule"] += "; plus kitchen-sink workflows (tools/ks.py: random workflows decorated with tagging components, sub-streams, Concatenator / FileSplitter, streamed pairs, component parameter feeders, Go-function and multi-core processes, RunTo) judged by the model-free basic (completion, nothing temporary at return, commands ended, slot bound) oracle"
     rep.cov["samples"] = [results[0]["spec"], results[2]["spec"]]
     rep.notes["input_distribution"] = {"runs": len(results), "tasks_executed_total": sum(r["ntasks"] for r in results), "max_wall_s": round(max(r["wall"] for r in results), 2)}
